@@ -467,6 +467,41 @@ impl Check for C17 {
                 out.violation(format!("panic:{}", panic_site(&p)), format!("front end panicked on {:?}: {}", src, p), json!({"probe": i, "source": src, "seed": ctx.seed}));
             }
         }
+        // fixed probes: doc links of every form into imports that resolve, are missing, fail to
+        // load, are not imported at all, and into the schema itself - on every kind of item
+        let targets = ["ok_dep", "missing_dep", "failing_dep", "not_imported", "probe", "self"];
+        let forms = ["[::{}::Foo]", "[`::{}::Foo::bar`]", "[text](::{})", "[::{}]", "[::{}::Svc::f]", "[::{}::Foo::]", "[x](::{}::Foo::bar::baz)", "[::{}::E::A]"];
+        let others: Vec<(String, Result<String, String>)> = vec![
+            ("ok_dep".to_string(), Ok("struct Foo { bar @ 1 = u8; }\nenum E { A @ 1; }\nservice Svc { uuid = e0af57f3-5537-48c6-b04d-e9011803609d; version = 1; fn f @ 1; }".to_string())),
+            ("failing_dep".to_string(), Err("scripted resolver failure".to_string())),
+        ];
+        for t in targets {
+            for form in forms {
+                let link = form.replace("{}", t);
+                let src = format!(
+                    "import ok_dep;\nimport missing_dep;\nimport failing_dep;\n\n/// See {l}.\nstruct Foo {{\n    /// Field {l}\n    bar @ 1 = u8;\n}}\n\n/// {l}\nenum E {{\n    /// {l}\n    A @ 1;\n}}\n\n/// {l}\nservice Svc {{\n    uuid = e0af57f3-5537-48c6-b04d-e9011803609c;\n    version = 1;\n\n    /// {l}\n    fn f @ 1 {{\n        /// {l}\n        args = struct {{ /// {l}\n x @ 1 = u8; }}\n    }}\n\n    /// {l}\n    event e @ 1;\n}}\n\n/// {l}\nconst C = u8(1);\n\n/// {l}\nnewtype N = u8;\n",
+                    l = link
+                );
+                let mut obs = Vec::new();
+                out.eval();
+                out.count("doc_link_probes", 1);
+                match guarded(|| front_end("probe", &src, &others, &mut obs)) {
+                    Err(p) => out.violation(format!("panic:{}", panic_site(&p)), format!("front end panicked on a doc link {:?}: {}", link, p), json!({"doc_link": link, "source": src, "seed": ctx.seed})),
+                    Ok(first) => {
+                        // repeatability of the diagnostics
+                        let mut obs2 = Vec::new();
+                        if let Ok(mut second) = guarded(|| front_end("probe", &src, &others, &mut obs2)) {
+                            let mut first = first;
+                            first.sort();
+                            second.sort();
+                            if first != second {
+                                out.violation("diagnostics-differ", format!("two runs over the same text with doc link {:?} report different diagnostics", link), json!({"doc_link": link, "source": src, "seed": ctx.seed}));
+                            }
+                        }
+                    }
+                }
+            }
+        }
     }
     fn run_case(&self, ctx: &Ctx, idx: u64, out: &mut Outcome) {
         let mut rng = Rng::derive(ctx.seed, 0xC17, idx);
